@@ -409,3 +409,84 @@ Theorem C05_gen_mediation_program : forall irq ier iw batch tb q i e rt c d,
               exists j, j < i /\ nth_error (fst (gen_router (cs_R s) (cs_D s) tb q)) j = Some (Permits p c true).
 Proof. exact gen_mediation_program. Qed.
 Print Assumptions C05_gen_mediation_program.
+
+(* ---------------------------------------------------------------- round 9: the registration key does not depend on how the
+   predicate arguments are spelled (Proofs/C05_pred.v; pyramid/predicates.py is outside the anchor files, its constructors are
+   regenerated by C03's translator -- these theorems make C05's build depend on generated = model for them) *)
+Require Verif.Gen.Facts_C03_gen.
+Require Import Verif.Proofs.C05_pred.
+
+(* RequestMethodPredicate.__init__ (reference model): the predicate object is the sorted closure under "GET implies HEAD" *)
+Theorem C05_method_canonical : forall l,
+  mk_method (VTexts l) = Some (PMethod (sorted_texts (method_closure l))).
+Proof. exact mk_method_canonical. Qed.
+Print Assumptions C05_method_canonical.
+
+(* two spellings of one method set (tuple order, HEAD next to GET written or implied) are one predicate *)
+Theorem C05_method_spelling_irrelevant : forall l1 l2,
+  Permutation (method_closure l1) (method_closure l2) -> mk_method (VTexts l1) = mk_method (VTexts l2).
+Proof. exact method_spelling_irrelevant. Qed.
+Print Assumptions C05_method_spelling_irrelevant.
+
+(* RequestMethodPredicate.__init__ REGENERATED from pyramid/predicates.py on this run is the reference constructor *)
+Theorem C05_gen_request_method_is_model : forall l,
+  Facts_C03_gen.gen_factory nm_request_method (VTexts l) = mk_method (VTexts l).
+Proof. exact gen_request_method_is_model. Qed.
+Print Assumptions C05_gen_request_method_is_model.
+
+(* ... so the spelling is irrelevant for the regenerated constructor too *)
+Theorem C05_gen_method_spelling_irrelevant : forall l1 l2,
+  Permutation (method_closure l1) (method_closure l2) ->
+  Facts_C03_gen.gen_factory nm_request_method (VTexts l1) = Facts_C03_gen.gen_factory nm_request_method (VTexts l2).
+Proof. exact gen_method_spelling_irrelevant. Qed.
+Print Assumptions C05_gen_method_spelling_irrelevant.
+
+(* PredicateList.make reads the predicate arguments only through the constructors *)
+Theorem C05_make_reads_constructed_values : forall names kw1 kw2,
+  kw_fact kw1 = kw_fact kw2 -> make names kw1 = make names kw2.
+Proof. exact make_reads_constructed_values. Qed.
+Print Assumptions C05_make_reads_constructed_values.
+
+(* a re-spelled request_method= next to any other predicate arguments: the same order, predicates and phash *)
+Theorem C05_make_respelled : forall l1 l2 rest,
+  Permutation (method_closure l1) (method_closure l2) ->
+  make pred_names (method_kw l1 rest) = make pred_names (method_kw l2 rest).
+Proof. exact make_respelled. Qed.
+Print Assumptions C05_make_respelled.
+
+(* a statement that re-spells the predicates of another one of the same slot has the SAME discriminator (judge clause J6
+   treats it as the override it is) ... *)
+Theorem C05_respelled_same_key : forall a b,
+  same_slot a b -> kw_fact (o_kw a) = kw_fact (o_kw b) -> make pred_names (o_kw a) <> None ->
+  slot_key_eqb a b = true.
+Proof. exact respelled_same_key. Qed.
+Print Assumptions C05_respelled_same_key.
+
+(* ... and add_view files both under the same slot, phash, predicate list and order: the key register_view replaces by *)
+Theorem C05_respelled_same_registration : forall st cls eo a b bd da db,
+  same_slot a b -> kw_fact (o_kw a) = kw_fact (o_kw b) ->
+  derive1 st cls eo a bd = Some da -> derive1 st cls eo b bd = Some db ->
+  r_slot (d_reg da) = r_slot (d_reg db) /\ r_phash (d_reg da) = r_phash (d_reg db)
+  /\ r_preds (d_reg da) = r_preds (d_reg db) /\ r_order (d_reg da) = r_order (d_reg db).
+Proof. exact respelled_same_registration. Qed.
+Print Assumptions C05_respelled_same_registration.
+
+(* non-vacuity: ('GET','POST') and ('POST','HEAD','GET') are one predicate, ('GET','POST') and ('POST',) are two *)
+Example C05_ex_respelled :
+  mk_method (VTexts [t_get; t_post]) = mk_method (VTexts [t_post; t_head; t_get])
+  /\ mk_method (VTexts [t_get; t_post]) <> mk_method (VTexts [t_post]).
+Proof. exact ex_respelled. Qed.
+
+(* MultiView.__call__ REGENERATED from the source (loop over get_views, PredicateMismatch swallowed per view, PredicateMismatch
+   when no view answers) is the model's mv_call5 for every list of entries; so the MultiView case of the component call of the
+   request path (which the mediation theorems are about) is the regenerated loop *)
+Theorem C05_gen_mv_call_is_model : forall D tb q lookup c l,
+  gen_mv_call (fun cmp => call_component5 D tb q lookup cmp c) l = mv_call5 D tb q lookup l c.
+Proof. exact gen_mv_call_is_model. Qed.
+Print Assumptions C05_gen_mv_call_is_model.
+
+Theorem C05_gen_mv_component_is_model : forall D tb q lookup c m,
+  gen_mv_call (fun cmp => call_component5 D tb q lookup cmp c) (get_views m (q_base q))
+  = call_component5 D tb q lookup (CMulti m) c.
+Proof. exact gen_mv_component_is_model. Qed.
+Print Assumptions C05_gen_mv_component_is_model.
